@@ -159,6 +159,9 @@ func init() {
 				"{% switch v %}{% case 1 %}a{% case \"b\" %}b{% default %}d{% endswitch %}", "{% ctx x = v %}{%= x %}", "{% ctx x, ok = v.a %}{%= ok %}", "{% counter v++ %}{%= v %}", "{% counter c = 1 %}{% counter c+5 %}{%= c %}",
 				"{%= v.a.b.c %}", "{%= v[v] %}", "{% for i := 0; i < 2; i++ %}{%= v[i] %}{%= v[v] %}{%= v[nope].x %}{% endfor %}", "{%j= v %}{%hh= v %}{%f.2= v %}{%F.3= v %}{%qq= v %}",
 				"{%= v == 1 ? v : v %}", "{% if lenEq0(v) %}e{% endif %}", "{% if nosuchhelper(v) %}e{% endif %}", "{% break %}", "{% continue %}", "{% lazybreak 3 %}", "{% for _, x := range v %}{% break 9 %}{% endfor %}"} {
+				if (strings.Contains(src, "i < v") && vals[i].Name == "maxint64") || (strings.Contains(src, "i := v") && vals[i].Name == "minint64") {
+					continue // a loop of 9e18 iterations is what the template asks for, not a hang inside dyntpl
+				}
 				run("node", "tpl", src, []string{"v"}, []c13Val{vals[i]})
 			}
 		}
